@@ -15,17 +15,17 @@ Lemma observe_src s :
    o_action_mask (state_to_observation s)) = M.observe (conv s).
 Proof. reflexivity. Qed.
 
+(* timesteps equal up to the boolean identities left after the case analysis; conditions compared up to conversion *)
+Ltac ts_eq := unfold cond_done, termination_src, transition_src, termination, transition, StepType_LAST, StepType_MID, LAST, MID;
+  cbn [negb orb andb]; rewrite ?orb_true_r, ?orb_false_r;
+  first [reflexivity | match goal with |- (if ?c then _ else _) = (if ?d then _ else _) => change c with d; destruct d; reflexivity end].
 Theorem step_src rnd sparse n pen dist s a :
   let r := step n (reward_model rnd sparse n pen dist) s a in
   conv (fst r) = fst (M.step_r rnd sparse n pen dist (conv s) a) /\ snd r = snd (M.step_r rnd sparse n pen dist (conv s) a).
 Proof.
+  (* by cases on the one atomic test (already visited?), so that the spelling of the source (locals, operand order) is irrelevant *)
   cbv zeta. unfold step, M.step_r, M.valid, reward_model. cbn [conv M.visited].
-  set (v := negb (jget false (s_visited_mask s) a)).
-  assert (E : conv (if v then update_state s a else s) = (if v then M.update (conv s) a else conv s)) by (destruct v; reflexivity).
-  set (s' := if v then update_state s a else s) in *. cbn [fst snd]. rewrite E. split; [reflexivity|].
-  change (s_num_visited s') with (M.nvis (conv s')). rewrite E.
-  unfold cond_done, termination_src, transition_src, termination, transition, StepType_LAST, StepType_MID, LAST, MID.
-  destruct ((M.nvis (if v then M.update (conv s) a else conv s) =? n) || negb v); reflexivity.
+  destruct (jget false (s_visited_mask s) a) eqn:Ev; cbn [negb fst snd]; (split; [reflexivity|]); ts_eq.
 Qed.
 
 (* ---- TSP theorems transferred to the translated source ---- *)
